@@ -365,3 +365,192 @@ func d6b(w *World, r *Report) {
 		}
 	}
 }
+
+// ---- D-6c: no stale copy is written over the overlay's own object
+
+// d6c: the item handed to an overlay setter of a live ledger (Set / SetFinality,
+// directly, through SetAccountCommittable or a selector helper) must not be an
+// object freshly decoded from the committed tree (Read / ImmutableLedgerAt /
+// IterateReadAll*): the overlay may hold a newer object for that key — with
+// changes made earlier in the block — which such a write would replace.
+func d6c(w *World, r *Report, x *ExecCtx, fns []*ssa.Function) {
+	// the ledger (field name) a tree read is made on; the rule is about writing the
+	// copy back into the SAME ledger (moving an item to another ledger overwrites nothing)
+	ledgerName := func(v ssa.Value) string {
+		s := w.Canon(ledgerRoot(v))
+		if i := strings.LastIndex(s, "."); i >= 0 {
+			s = s[i+1:]
+		}
+		return s
+	}
+	dest := ""
+	isTreeRead := func(c *ssa.CallCommon) bool {
+		rn := recvNamed(c)
+		if rn == nil || !(isLedgerType(rn) || isLedgerType(types.NewPointer(rn))) {
+			return false
+		}
+		switch callName(c) {
+		case "Read", "IterateReadAllItems", "IterateReadAllFinalityItems":
+			var rcv ssa.Value
+			if c.IsInvoke() {
+				rcv = c.Value
+			} else if len(c.Args) > 0 {
+				rcv = c.Args[0]
+			}
+			return rcv != nil && ledgerName(rcv) == dest
+		}
+		return false
+	}
+	n := 0
+	for _, fn := range fns {
+		if inLedgerPkg(w, fn) {
+			continue
+		}
+		for _, c := range CallsIn(fn) {
+			var item ssa.Value
+			what := ""
+			if arms := w.ledgerArmsF(c); arms != nil {
+				setter := false
+				for _, a := range arms {
+					if a.Method == "Set" || a.Method == "SetFinality" {
+						if k, _ := w.ledgerKind(a.Recv); k == "live" {
+							setter = true
+							what = w.Canon(ledgerRoot(a.Recv)) + "." + a.Method
+							dest = ledgerName(a.Recv)
+						}
+					}
+				}
+				if setter {
+					item = w.ledgerItemArg(c)
+				}
+			} else if nm := callName(c.Common()); nm == "SetAccountCommittable" || nm == "setAccountCommittable" {
+				_, args := callRecvArgs(c.Common())
+				if c.Common().IsInvoke() {
+					args = c.Common().Args
+				}
+				if len(args) >= 1 {
+					item = args[0]
+					what = nm
+					dest = "acctLedger"
+				}
+			}
+			if item == nil {
+				continue
+			}
+			n++
+			reach := w.ReachFrom([]*ssa.Function{fn}, nil)
+			p := &provCtx{w: w, funcs: reach.ModuleFuncs(), visitF: map[string]bool{}, memo: map[string]provenance{}, witness: map[string]string{}, src: isTreeRead}
+			key := w.FName(fn) + ":" + what + ":" + w.Canon(item)
+			if p.valueProv(item, 0, map[ssa.Value]bool{}) == provPersist {
+				r.Violate("D-6", "stale-copy:"+key, "an object decoded afresh from the committed tree is written into the overlay: it replaces the overlay's own object for that key and with it every change made to that item earlier in the block", nil, site(w, c))
+			} else {
+				r.OK("D-6", "stale-copy:"+key, "the object written is the overlay's own (or a new one), not a copy decoded from the committed tree", site(w, c))
+			}
+		}
+	}
+	r.Extra["d6c_overlay_writes"] = n
+}
+
+// ---- D-6d: a record deleted from an overlay is not written back afterwards
+
+// d6d: after DelFinality / Del of <obj>.Key() no Set / SetFinality of the same
+// <obj> on the same ledger is reachable in that function: Commit applies removals
+// before updates, so the later write would bring the deleted record back.
+func d6d(w *World, r *Report, fns []*ssa.Function) {
+	n := 0
+	for _, fn := range fns {
+		if inLedgerPkg(w, fn) {
+			continue
+		}
+		type lc struct {
+			c      ssa.CallInstruction
+			ledger string
+			obj    string
+		}
+		var dels, sets []lc
+		for _, c := range CallsIn(fn) {
+			arms := w.ledgerArmsF(c)
+			if arms == nil {
+				continue
+			}
+			it := w.ledgerItemArg(c)
+			if it == nil {
+				continue
+			}
+			led := w.Canon(ledgerRoot(arms[0].Recv))
+			isDel, isSet := true, true
+			for _, a := range arms {
+				if a.Method != "Del" && a.Method != "DelFinality" {
+					isDel = false
+				}
+				if a.Method != "Set" && a.Method != "SetFinality" {
+					isSet = false
+				}
+			}
+			s := w.Canon(it)
+			switch {
+			case isDel && strings.HasSuffix(s, ".Key()"):
+				dels = append(dels, lc{c, led, strings.TrimSuffix(s, ".Key()")})
+			case isSet:
+				sets = append(sets, lc{c, led, s})
+			}
+		}
+		for _, d := range dels {
+			n++
+			bad := ""
+			for _, st := range sets {
+				if st.ledger == d.ledger && st.obj == d.obj && instrReaches(d.c, st.c) && !instrReachesOnlyThroughLoopHead(d.c, st.c) {
+					bad = site(w, st.c)
+				}
+			}
+			key := "no-resurrect:" + w.FName(fn) + ":" + d.ledger + ":" + d.obj
+			if bad == "" {
+				r.OK("D-6", key, "no write of the record is reachable after its deletion", site(w, d.c))
+			} else {
+				r.Violate("D-6", key, "the record is written to the ledger again ("+bad+") after it was deleted: the commit applies removals before updates, so the deleted record comes back", nil, site(w, d.c), bad)
+			}
+		}
+	}
+	r.Extra["d6d_deletes"] = n
+}
+
+// instrReachesOnlyThroughLoopHead: b is reachable from a only by going round the
+// enclosing loop (a later iteration works on another element).
+func instrReachesOnlyThroughLoopHead(a, b ssa.Instruction) bool {
+	h := loopHeaderOf(a.Block())
+	if h == nil {
+		return false
+	}
+	// reachability from a to b avoiding the loop header
+	seen := map[*ssa.BasicBlock]bool{}
+	found := false
+	var walk func(blk *ssa.BasicBlock)
+	walk = func(blk *ssa.BasicBlock) {
+		if seen[blk] || found {
+			return
+		}
+		seen[blk] = true
+		if blk == b.Block() && blk != a.Block() {
+			found = true
+			return
+		}
+		for _, s := range blk.Succs {
+			if s == h {
+				continue
+			}
+			walk(s)
+		}
+	}
+	if a.Block() == b.Block() {
+		pa, pb := posOf(a), posOf(b)
+		if pa.i < pb.i {
+			return false // straight-line after the delete
+		}
+	}
+	for _, s := range a.Block().Succs {
+		if s != h {
+			walk(s)
+		}
+	}
+	return !found
+}
